@@ -37,6 +37,7 @@ THEOREMS = [
     "Nix.C08.C08_region_multi",
     "Nix.C08.C08_feature_tag",
     "Nix.C08.C08_feature_multi",
+    "Nix.C08.C08_axis_full_counterexample",
 ]
 ASSUMPTIONS = [
     "floats are modelled as exact rationals (DESIGN section 5): the unit factor is the exact power of ten, positions "
